@@ -17,6 +17,185 @@ def mean_se(t):
     return float(t.mean()), float(t.std()) / math.sqrt(n)
 
 
+def var_se(x):
+    """sample variance and its standard error from the empirical fourth central moment"""
+    n = x.numel()
+    c = x - x.mean()
+    v = float((c ** 2).sum() / (n - 1))
+    m4 = float((c ** 4).mean())
+    return v, math.sqrt(max(m4 - v * v, 0.0) / n)
+
+
+def sweep_params(g, name):
+    """moment-search parameter sets: moderate total log-variance so that 5-sigma bars from empirical standard errors are reliable"""
+    dt = g.choice([1 / 250, 1 / 50])
+    p = {"dt": dt, "n": g.choice([11, 26])}
+    if name == "brownian":
+        p |= {"init": g.choice([0.0, 1.0, -1.0]), "sigma": g.choice([0.2, 1.0]), "mu": g.choice([0.0, 0.3, -0.5])}
+    elif name == "geometric_brownian":
+        p |= {"init": g.choice([1.0, 2.0]), "sigma": g.choice([0.2, 0.5]), "mu": g.choice([0.0, 0.3])}
+    elif name == "vasicek":
+        p |= {"init": g.choice([0.0, 0.04, 0.2]), "kappa": g.choice([1.0, 3.0]), "theta": g.choice([0.04, 0.1]), "sigma": g.choice([0.02, 0.1])}
+    elif name == "cir":
+        p |= {"init": g.choice([0.04, 0.2, 0.0]), "kappa": g.choice([1.0, 3.0, 0.5]), "theta": g.choice([0.04, 0.1]), "sigma": g.choice([0.2, 1.0])}
+    elif name == "heston":
+        p |= {"s0": g.choice([1.0, 2.0]), "v0": g.choice([0.04, 0.2]), "kappa": g.choice([1.0, 3.0]), "theta": g.choice([0.04, 0.1]),
+              "sigma": g.choice([0.2, 1.0]), "rho": g.choice([-0.7, 0.6])}
+    elif name == "merton_jump":
+        p |= {"init": g.choice([1.0, 2.0]), "mu": g.choice([0.0, 0.3]), "sigma": g.choice([0.2, 0.5]), "lam": g.choice([10.0, 68.0]),
+              "jm": g.choice([0.0, -0.05]), "js": g.choice([0.02, 0.1])}
+    elif name == "kou_jump":
+        p |= {"init": g.choice([1.0, 2.0]), "mu": g.choice([0.0, 0.3]), "sigma": g.choice([0.2, 0.5]), "lam": g.choice([10.0, 68.0]),
+              "mean_up": g.choice([0.02, 0.1]), "mean_down": g.choice([0.05, 0.1]), "p_up": g.choice([0.5, 0.3, 0.8])}
+    elif name == "local_volatility":
+        p |= {"init": g.choice([1.0, 2.0]), "a": g.choice([0.2, 0.4]), "b": g.choice([0.0, 0.1]), "c": 0.0}
+    else:
+        p |= {"s0": 1.0, "xi": g.choice([0.04, 0.09]), "n": g.choice([6, 21]), "alpha": -0.4, "rho": -0.9, "eta": 1.9}
+        p["v0"] = p["xi"]
+    return p
+
+
+def logvar_total(name, p):
+    """total log-variance of the terminal value (None: not an exponential-type statistic)"""
+    T = (p["n"] - 1) * p["dt"]
+    if name == "geometric_brownian":
+        return p["sigma"] ** 2 * T
+    if name == "merton_jump":
+        return (p["sigma"] ** 2 + p["lam"] * (p["jm"] ** 2 + p["js"] ** 2)) * T
+    if name == "kou_jump":
+        return (p["sigma"] ** 2 + p["lam"] * 2 * (p["p_up"] * p["mean_up"] ** 2 + (1 - p["p_up"]) * p["mean_down"] ** 2)) * T
+    if name == "heston":
+        return max(p["v0"], p["theta"]) * T
+    if name == "local_volatility":
+        return (abs(p["a"]) + abs(p["b"]) * 2 * p["init"] + abs(p.get("c", 0.0)) * T) ** 2 * T
+    return None
+
+
+def directed_params(name, p):
+    """variants of a disagreeing parameter set on which the 5-sigma moment statements are reliable: the case itself with a
+    longer / one-step grid, and tamed variants (jump sizes with finite fourth exponential moment, moderate total log-variance)"""
+    out = []
+    base = dict(p)
+    base.pop("N", None)
+    for n in (max(p["n"], 6), 2):
+        q = dict(base, n=n)
+        if name == "kou_jump":
+            q["mean_up"] = min(q["mean_up"], 0.1)
+            q["mean_down"] = min(q["mean_down"], 0.2)
+        if name in ("merton_jump", "kou_jump"):
+            q["lam"] = min(q["lam"], 68.0)
+        if name == "rough_bergomi":
+            q["n"] = max(n, 3)
+        lv = logvar_total(name, q)
+        while lv is not None and lv > 0.5 and q["n"] > 2:
+            q["n"] = max(2, q["n"] // 2)
+            lv = logvar_total(name, q)
+        if lv is not None and lv > 0.5:
+            continue
+        if q not in out:
+            out.append(q)
+    return out
+
+
+def moment_suite(ctx, torch, S, name, p, NP, origin):
+    """search support (not proof): large-sample estimates of the moment statements of C10 on the REAL generator at parameter set `p`,
+    each with an explicit 5-standard-error bar; a deviation is a failing input of the property"""
+    dt64 = torch.float64
+    dt, n = p["dt"], p["n"]
+    T = (n - 1) * dt
+    case = {k: v for k, v in p.items()} | {"generator": name, "n_paths": NP, "origin": origin}
+
+    def chk(what, est, se, exact, key, slack=1e-12):
+        ctx.case(case | {"stat": what}, True, tag="moments")
+        ctx.stats[f"moment:{name}"] += 1
+        if not abs(est - exact) <= 5 * se + slack:
+            ctx.fail(f"{name}: {what} deviates from its closed form by more than 5 standard errors", case | {"stat": what}, key=key,
+                     detail={"estimate": est, "std_error": se, "closed_form": exact})
+    if name == "brownian":
+        x = S.generate_brownian(NP, n, init_state=(p["init"],), sigma=p["sigma"], mu=p["mu"], dt=dt, dtype=dt64)[:, -1]
+        m, se = mean_se(x)
+        chk("terminal mean = x0 + mu t", m, se, p["init"] + p["mu"] * T, "moment:brownian:mean")
+        v, sev = var_se(x)
+        chk("terminal variance = sigma^2 t", v, sev, p["sigma"] ** 2 * T, "moment:brownian:var")
+    elif name == "geometric_brownian":
+        s0 = p["init"]
+        x = S.generate_geometric_brownian(NP, n, init_state=(s0,), sigma=p["sigma"], mu=p["mu"], dt=dt, dtype=dt64)[:, -1]
+        m, se = mean_se(x)
+        chk("terminal mean = S0 exp(mu t)", m, se, s0 * math.exp(p["mu"] * T), "moment:gbm:mean")
+        v, sev = var_se((x / s0).log())
+        chk("log-variance = sigma^2 t", v, sev, p["sigma"] ** 2 * T, "moment:gbm:logvar")
+    elif name == "merton_jump":
+        s0 = p["init"]
+        x = S.generate_merton_jump(NP, n, init_state=(s0,), mu=p["mu"], sigma=p["sigma"], jump_per_year=p["lam"], jump_mean=p["jm"],
+                                   jump_std=p["js"], dt=dt, dtype=dt64)[:, -1]
+        m, se = mean_se(x)
+        chk("terminal mean = S0 exp(mu t)", m, se, s0 * math.exp(p["mu"] * T), "moment:merton:mean")
+        v, sev = var_se((x / s0).log())
+        chk("log-variance = (sigma^2 + lam (jm^2 + js^2)) t", v, sev, (p["sigma"] ** 2 + p["lam"] * (p["jm"] ** 2 + p["js"] ** 2)) * T,
+            "moment:merton:logvar")
+    elif name == "kou_jump":
+        s0, pu, up, dn = p["init"], p["p_up"], p["mean_up"], p["mean_down"]
+        x = S.generate_kou_jump(NP, n, init_state=(s0,), sigma=p["sigma"], mu=p["mu"], jump_per_year=p["lam"], jump_mean_up=up,
+                                jump_mean_down=dn, jump_up_prob=pu, dt=dt, dtype=dt64)[:, -1]
+        m, se = mean_se(x)
+        chk("terminal mean = S0 exp(mu t)", m, se, s0 * math.exp(p["mu"] * T), "moment:kou:mean")
+        v, sev = var_se((x / s0).log())
+        chk("log-variance = (sigma^2 + 2 lam (p up^2 + (1-p) down^2)) t", v, sev,
+            (p["sigma"] ** 2 + 2 * p["lam"] * (pu * up ** 2 + (1 - pu) * dn ** 2)) * T, "moment:kou:logvar")
+    elif name == "vasicek":
+        k, th, sg, x0 = p["kappa"], p["theta"], p["sigma"], p["init"]
+        x = S.generate_vasicek(NP, n, init_state=(x0,), kappa=k, theta=th, sigma=sg, dt=dt, dtype=dt64)[:, -1]
+        m, se = mean_se(x)
+        chk("mean = theta + (x0 - theta) exp(-kappa t)", m, se, th + (x0 - th) * math.exp(-k * T), "moment:vasicek:mean")
+        v, sev = var_se(x)
+        chk("variance = sigma^2 (1 - exp(-2 kappa t)) / (2 kappa)", v, sev, sg ** 2 * (1 - math.exp(-2 * k * T)) / (2 * k), "moment:vasicek:var",
+            slack=1e-18)
+    elif name in ("cir", "heston"):
+        k, th, sg = p["kappa"], p["theta"], p["sigma"]
+        if name == "cir":
+            v0 = p["init"]
+            x = S.generate_cir(NP, n, init_state=(v0,), kappa=k, theta=th, sigma=sg, dt=dt, dtype=dt64)[:, -1]
+        else:
+            v0 = p["v0"]
+            o = S.generate_heston(NP, n, init_state=(p["s0"], v0), kappa=k, theta=th, sigma=sg, rho=p["rho"], dt=dt, dtype=dt64)
+            x = o.variance[:, -1]
+        e1 = math.exp(-k * T)
+        m, se = mean_se(x)
+        chk("variance-process mean = theta + (v0 - theta) exp(-kappa t)", m, se, th + (v0 - th) * e1, f"moment:{name}:var-mean" if name == "heston" else "moment:cir:mean")
+        # the QE scheme matches the exact conditional mean and variance at every step and both are affine in v, so the terminal
+        # variance equals the exact CIR variance (theorem cirStep_variance_* + total variance)
+        v, sev = var_se(x)
+        exactv = v0 * sg ** 2 / k * (e1 - e1 * e1) + th * sg ** 2 / (2 * k) * (1 - e1) ** 2
+        chk("variance-process variance = v0 sigma^2/kappa (e^-kt - e^-2kt) + theta sigma^2/(2 kappa) (1 - e^-kt)^2", v, sev, exactv,
+            f"moment:{name}:var-var" if name == "heston" else "moment:cir:var", slack=1e-4 * exactv + 1e-18)
+        if name == "heston":
+            m, se = mean_se(o.spot[:, -1])
+            chk("terminal spot mean = S0 (martingale)", m, se, p["s0"], "moment:heston:mean")
+            if n >= 2 and v0 > 0:
+                ret = (o.spot[:, 1] / o.spot[:, 0]).log()
+                dv = o.variance[:, 1] - o.variance[:, 0]
+                corr = float(torch.corrcoef(torch.stack([ret, dv]))[0, 1])
+                ctx.case(case | {"stat": "corr"}, True, tag="moments")
+                if not (abs(corr - p["rho"]) < 0.1):
+                    ctx.fail("heston: correlation of returns and variance moves does not have the sign and size of rho", case | {"stat": "corr"},
+                             key="moment:heston:corr", detail={"corr": corr, "rho": p["rho"]})
+    elif name == "local_volatility":
+        a, b, c = p["a"], p["b"], p.get("c", 0.0)
+        o = S.generate_local_volatility_process(NP, n, lambda t, s: a + b * s + c * t, init_state=(p["init"],), dt=dt, dtype=dt64)
+        m, se = mean_se(o.spot[:, -1])
+        chk("terminal mean = S0 (martingale)", m, se, p["init"], "moment:localvol:mean")
+    else:
+        xi = p["xi"]
+        o = S.generate_rough_bergomi(min(NP, 20000), n, init_state=(p["s0"], xi), alpha=p["alpha"], rho=p["rho"], eta=p["eta"], xi=xi, dt=dt, dtype=dt64)
+        m, se = mean_se(o.variance[:, -1])
+        crb = {"xi": xi, "n_steps": n, "dt": dt, "horizon_years": (n - 1) * dt, "alpha": p["alpha"], "eta": p["eta"]}
+        ctx.case(crb, True, tag="moments")
+        ctx.stats["moment:rough_bergomi"] += 1
+        if abs(m - xi) > 5 * se + 0.02 * xi:
+            ctx.fail("rough Bergomi: mean forward variance drifts away from xi (kernel normalised by n_steps-1 instead of 1/dt)", crb,
+                     key="moment:rough_bergomi:variance-mean", detail={"estimate": m, "std_error": se, "xi": xi})
+
+
 def check(ctx):
     torch, pfhedge = import_impl()
     import pfhedge.stochastic as S
@@ -106,78 +285,21 @@ def check(ctx):
     NP = 20000 if ctx.tier == "quick" else 200000
     sweeps = 2 if ctx.tier == "quick" else 8
     for sw in range(sweeps):
-        dt = g.choice([1 / 250, 1 / 50])
-        n_steps = g.choice([11, 26])
-        T = (n_steps - 1) * dt
-        mu, sigma, s0 = g.choice([0.0, 0.3]), g.choice([0.2, 0.5]), g.choice([1.0, 2.0])
-
-        def chk(name, what, est, se, exact, case, key):
-            ctx.case(case | {"stat": what}, True, tag="moments")
-            ctx.stats[f"moment:{name}"] += 1
-            if abs(est - exact) > 5 * se + 1e-12:
-                ctx.fail(f"{name}: {what} deviates from its closed form by more than 5 standard errors", case | {"stat": what}, key=key,
-                         detail={"estimate": est, "std_error": se, "closed_form": exact})
-        case = {"dt": dt, "n_steps": n_steps, "mu": mu, "sigma": sigma, "s0": s0, "n_paths": NP}
-        x = S.generate_geometric_brownian(NP, n_steps, init_state=(s0,), sigma=sigma, mu=mu, dt=dt, dtype=dt64)[:, -1]
-        m, se = mean_se(x)
-        chk("geometric_brownian", "terminal mean = S0 exp(mu t)", m, se, s0 * math.exp(mu * T), case, "moment:gbm:mean")
-        lv = (x / s0).log()
-        v, sev = float(lv.var()), float(lv.var()) * math.sqrt(2 / (NP - 1))
-        chk("geometric_brownian", "log-variance = sigma^2 t", v, sev, sigma ** 2 * T, case, "moment:gbm:logvar")
-        lam, jm, js = g.choice([10.0, 68.0]), g.choice([0.0, -0.05]), g.choice([0.02, 0.1])
-        x = S.generate_merton_jump(NP, n_steps, init_state=(s0,), mu=mu, sigma=sigma, jump_per_year=lam, jump_mean=jm, jump_std=js, dt=dt, dtype=dt64)[:, -1]
-        m, se = mean_se(x)
-        chk("merton_jump", "terminal mean = S0 exp(mu t)", m, se, s0 * math.exp(mu * T), case | {"lam": lam, "jm": jm, "js": js}, "moment:merton:mean")
-        lv = (x / s0).log()
-        v, sev = float(lv.var()), float(lv.var()) * math.sqrt((2 + 3 * 2) / (NP - 1))
-        chk("merton_jump", "log-variance = (sigma^2 + lam (jm^2 + js^2)) t", v, sev, (sigma ** 2 + lam * (jm ** 2 + js ** 2)) * T,
-            case | {"lam": lam, "jm": jm, "js": js}, "moment:merton:logvar")
-        up, dn, pu = g.choice([0.02, 0.1]), g.choice([0.05, 0.1]), g.choice([0.5, 0.3])
-        x = S.generate_kou_jump(NP, n_steps, init_state=(s0,), sigma=sigma, mu=mu, jump_per_year=lam, jump_mean_up=up, jump_mean_down=dn,
-                                jump_up_prob=pu, dt=dt, dtype=dt64)[:, -1]
-        m, se = mean_se(x)
-        chk("kou_jump", "terminal mean = S0 exp(mu t)", m, se, s0 * math.exp(mu * T), case | {"lam": lam, "up": up, "down": dn, "p_up": pu}, "moment:kou:mean")
-        kappa, theta, sg, x0 = g.choice([1.0, 3.0]), g.choice([0.04, 0.1]), g.choice([0.02, 0.1]), g.choice([0.0, 0.04, 0.2])
-        x = S.generate_vasicek(NP, n_steps, init_state=(x0,), kappa=kappa, theta=theta, sigma=sg, dt=dt, dtype=dt64)[:, -1]
-        m, se = mean_se(x)
-        cv = {"kappa": kappa, "theta": theta, "sigma": sg, "x0": x0} | case
-        chk("vasicek", "mean = theta + (x0 - theta) exp(-kappa t)", m, se, theta + (x0 - theta) * math.exp(-kappa * T), cv, "moment:vasicek:mean")
-        v = float(x.var())
-        chk("vasicek", "variance = sigma^2 (1 - exp(-2 kappa t)) / (2 kappa)", v, v * math.sqrt(2 / (NP - 1)),
-            sg ** 2 * (1 - math.exp(-2 * kappa * T)) / (2 * kappa), cv, "moment:vasicek:var")
-        csig, v0 = g.choice([0.2, 1.0]), g.choice([0.04, 0.2, 0.0])
-        x = S.generate_cir(NP, n_steps, init_state=(v0,), kappa=kappa, theta=theta, sigma=csig, dt=dt, dtype=dt64)[:, -1]
-        m, se = mean_se(x)
-        chk("cir", "mean = theta + (v0 - theta) exp(-kappa t)", m, se, theta + (v0 - theta) * math.exp(-kappa * T),
-            {"kappa": kappa, "theta": theta, "sigma": csig, "v0": v0} | case, "moment:cir:mean")
-        rho = g.choice([-0.7, 0.6])
-        o = S.generate_heston(NP, n_steps, init_state=(s0, max(v0, 0.04)), kappa=kappa, theta=theta, sigma=csig, rho=rho, dt=dt, dtype=dt64)
-        m, se = mean_se(o.spot[:, -1])
-        ch = {"kappa": kappa, "theta": theta, "sigma": csig, "rho": rho} | case
-        chk("heston", "terminal spot mean = S0 (martingale)", m, se, s0, ch, "moment:heston:mean")
-        ret = (o.spot[:, 1] / o.spot[:, 0]).log()
-        dv = o.variance[:, 1] - o.variance[:, 0]
-        corr = float(torch.corrcoef(torch.stack([ret, dv]))[0, 1])
-        ctx.case(ch | {"stat": "corr"}, True, tag="moments")
-        if not (abs(corr - rho) < 0.1):
-            ctx.fail("heston: correlation of returns and variance moves does not have the sign and size of rho", ch | {"stat": "corr"},
-                     key="moment:heston:corr", detail={"corr": corr, "rho": rho})
-        a, b = g.choice([0.2, 0.4]), g.choice([0.0, 0.1])
-        o = S.generate_local_volatility_process(NP, n_steps, lambda t, s: a + b * s, init_state=(s0,), dt=dt, dtype=dt64)
-        m, se = mean_se(o.spot[:, -1])
-        chk("local_volatility", "terminal mean = S0 (martingale)", m, se, s0, case | {"a": a, "b": b}, "moment:localvol:mean")
-        # rough Bergomi: forward variance stays at xi
-        xi = g.choice([0.04, 0.09])
-        nrb = g.choice([6, 21])
-        o = S.generate_rough_bergomi(min(NP, 20000), nrb, init_state=(1.0, xi), xi=xi, dt=dt, dtype=dt64)
-        m, se = mean_se(o.variance[:, -1])
-        key = "moment:rough_bergomi:variance-mean"
-        crb = {"xi": xi, "n_steps": nrb, "dt": dt, "horizon_years": (nrb - 1) * dt}
-        ctx.case(crb, True, tag="moments")
-        ctx.stats["moment:rough_bergomi"] += 1
-        if abs(m - xi) > 5 * se + 0.02 * xi:
-            ctx.fail("rough Bergomi: mean forward variance drifts away from xi (kernel normalised by n_steps-1 instead of 1/dt)", crb, key=key,
-                     detail={"estimate": m, "std_error": se, "xi": xi})
+        for name in GENERATORS:
+            moment_suite(ctx, torch, S, name, sweep_params(g, name), NP, "sweep")
+    # ---------------- failing-input search directed at the generators whose correspondence broke:
+    # the same moment statements evaluated at (tamed variants of) the disagreeing parameter sets
+    seen = set()
+    for t in list(ctx.ties_broken):
+        if t.get("kind") != "correspondence" or t.get("op") != "gen":
+            continue
+        c = t["case"]
+        k = json.dumps([c["generator"], c["params"]], sort_keys=True)
+        if k in seen or len(seen) >= 6:
+            continue
+        seen.add(k)
+        for mp in directed_params(c["generator"], c["params"]):
+            moment_suite(ctx, torch, S, c["generator"], mp, 100000, "directed")
     return ctx.finish(
         rule="all nine generators with recorded draws over parameter sweeps (non-default initial states, dt in {1/250,1/12,0.1,1/365}, n in {1..20}, "
              "both CIR QE branches via high/low vol-of-vol, zero and high jump intensities); moment estimates with 5-sigma bars on 2 (quick) / 8 (thorough) "
